@@ -99,10 +99,10 @@ pub fn cmp_pair<const N: usize, const M: usize>(ctx: &mut Ctx) {
             let cb = if la == lb || la + 1 == lb || lb + 1 == la { contents(lb, alpha) } else { vec![vec![1; lb]] };
             for sa in 0..starts_a {
                 for sb in 0..starts_b {
-                    let key = hash64(&format!("cmp|{}|{}|{}|{}|{}|{}", N, M, la, lb, sa, sb));
-                    if !ctx.mine(key) {
+                    if !ctx.mine_next() {
                         continue;
                     }
+                    let key = hash64(&format!("cmp|{}|{}|{}|{}|{}|{}", N, M, la, lb, sa, sb));
                     if !ctx.begin_case(|| format!("cmp N={} M={} A(start={},len={}) B(start={},len={}) all contents over {} symbols", N, M, sa, la, sb, lb, alpha)) {
                         continue;
                     }
@@ -212,7 +212,7 @@ pub fn cmp_pair<const N: usize, const M: usize>(ctx: &mut Ctx) {
 
 /// partial order with NaN, and a heterogeneous element pair
 pub fn cmp_misc<const N: usize>(ctx: &mut Ctx) {
-    if !ctx.mine(hash64(&format!("misc|{}", N))) {
+    if !ctx.mine_next() {
         return;
     }
     if !ctx.begin_case(|| format!("cmp N={} f64 with NaN and String/&str", N)) {
